@@ -107,7 +107,14 @@ def dispatch (c : Ctx) (r : Row) (options : BitVec 32) (o0 o1 o2 o3 : Op) : Exce
   let lx01 := opcodeLBySize (o0.rmSize ||| o1.rmSize)
   match r.encoding with
   | 0x14 => x86RM (addPrefixBySize opcode o0.rmSize) 0 0                       -- X86Rm
-  | 0x15 => x86RM opcode 0 0                                                     -- X86Rm_NoSize
+  | 0x15 =>                                                                       -- X86Rm_Raw66H (66 + [F2|F3]: the 66 byte is written first)
+    let raw : List Byte := if o0.rmSize == 2 then [0x66#8] else []
+    let opcode := if o0.rmSize == 2 then opcode else if o0.rmSize == 8 then opcode ||| kW else opcode
+    let c' := { c with off := c.off + raw.length }
+    if isign3 == RR then (emitX86R opcode options (r32 o0.id) (r32 o1.id) 0 0).map (raw ++ ·)
+    else if isign3 == RM then (emitX86M c' opcode options (r32 o0.id) (memOf o1) 0 0).map (raw ++ ·)
+    else .error .invalidInstruction
+  | 0x16 => x86RM opcode 0 0                                                     -- X86Rm_NoSize
   | 0x17 =>                                                                       -- X86Mr
     let opcode := addPrefixBySize opcode o1.rmSize
     if isign3 == RR then emitX86R opcode options (r32 o1.id) (r32 o0.id) 0 0
